@@ -11,6 +11,14 @@ import (
 
 // contractName maps a function to the stem used by its vc_ functions.
 func contractStem(fn *ssa.Function) string {
+	if p := fn.Parent(); p != nil {
+		// function literal: <stem of the enclosing function>_func<N>
+		for i, a := range p.AnonFuncs {
+			if a == fn {
+				return fmt.Sprintf("%s_func%d", contractStem(p), i+1)
+			}
+		}
+	}
 	if recv := fn.Signature.Recv(); recv != nil {
 		t := recv.Type()
 		if p, ok := t.(*types.Pointer); ok {
